@@ -499,4 +499,7 @@ def run(ctx):
     if not (oke and env):
         res.add(Finding('C20', 'C20.e', 'R-DECISION', calc.file, calc.qualname, calc.node.lineno, 'limit source',
                         'the limit is not "explicit value if not None, else environment variable, else default"'))
+    # ---- C20.g an explicit limit reaches the limit option: constructors of the handlers keep the base parameter order
+    from . import common as _cm20
+    _cm20.ctor_prefix_clause(ctx, res, 'C20', 'C20.g', fi.name, floor=2)
     return res
